@@ -8,6 +8,7 @@ engines); exactly one file, named <name> + engine extension iff the name had non
 every entry point agrees on that name.
 """
 import os
+import shutil
 import copy
 
 import numpy as np
@@ -41,6 +42,7 @@ MIN_REACH = {
     "merges_widening_a_narrow_stored_axis": {"quick": 6, "thorough": 100},
     "listings_checked": {"quick": 500, "thorough": 8000},
     "harvester_name_checks": {"quick": 50, "thorough": 800},
+    "harvester_deletes_with_backup": {"quick": 12, "thorough": 200},
 }
 TIME_BUDGET = {"quick": 400, "thorough": 3400}
 
@@ -295,9 +297,27 @@ def run_case(ctx, case):
                 if d:
                     bad.append(("roundtrip", "new Harvester's full_ds differs: " + d))
             ctx.count("harvester_name_checks")
-            with quiet():
-                h2.delete_ds()
-            listing_ok("Harvester.delete_ds", expect_present=False)
+            if case["dseed"] % 3 == 0:
+                # delete with a backup: the file that save/load use is the one backed up, and the only thing left
+                with quiet():
+                    h2.delete_ds(backup=True)
+                ctx.count("harvester_deletes_with_backup")
+                ls = sorted(os.listdir(tmp))
+                if len(ls) != 1 or not ls[0].startswith(want_file + ".BAK-"):
+                    bad.append(("file-name", "after Harvester.delete_ds(backup=True) the directory holds %s, expected only a "
+                                "backup of %s (name given: %r, engine %s)" % (ls, want_file, case["name"], engine)))
+                else:
+                    restored = os.path.join(tmp, "restored" + {"h5netcdf": ".h5", "joblib": ".dmp"}.get(engine, ".h5"))
+                    shutil.copy(os.path.join(tmp, ls[0]), restored)
+                    with quiet():
+                        back = xyzpy.load_ds(restored, engine=engine)
+                    d = judge_equal(orig, back, engine)
+                    if d:
+                        bad.append(("roundtrip", "the backup made by delete_ds(backup=True) differs from what was saved: " + d))
+            else:
+                with quiet():
+                    h2.delete_ds()
+                listing_ok("Harvester.delete_ds", expect_present=False)
     except Exception as e:
         bad.append(("no-exception", "%s raised %r" % (case["mode"], e)))
         sig.update(exc_sig(e))
